@@ -185,3 +185,7 @@ def guard_destroy(ctx, prog):
 guard_destroy.rule_id = "C13.GUARD-apply-site"
 
 RULES = [wmw_status, dom_assert, guard_read, guard_value, cfw_status, guard_destroy]
+
+# control signature of the bookkeeping effects this property depends on (rules/ctrlsig.py)
+from .ctrlsig import make_rule as _ctrl_rule  # noqa: E402
+RULES.append(_ctrl_rule("C13"))
